@@ -684,6 +684,8 @@ BadResMore(s, ns, op, res) ==
        \cup (IF "same" \in DOMAIN res /\ res.same.match # 1 THEN {"res.same"} ELSE {})
        \* C14: the same bytes as the first render of this content, format and decoration
        \cup (IF "rep" \in DOMAIN res /\ res.rep.equal # 1 THEN {"res.rep"} ELSE {})
+       \* C06: a second, independent reader (encoding/xml, strict) sees the same token structure as the tokenizer
+       \cup (IF "xmlok" \in DOMAIN res /\ res.xmlok = 0 THEN {"res.lexer"} ELSE {})
        \* C16: the same bytes as when the same scenario ran alone
        \cup (IF "solo" \in DOMAIN res /\ res.solo # 1 THEN {"res.solo"} ELSE {})
        \* the wrapper renders with the decoration that was last set on it
